@@ -336,6 +336,7 @@ type handlerRun struct {
 	read    []byte
 	ifaceOK bool
 	ifaceNo string
+	bare    bool // the handler talks to the downstream writer itself (no interceptor)
 	ops     []Op // ops as really executed (ReadFrom chunks as delivered)
 }
 
@@ -346,10 +347,10 @@ func makeHandler(ops []Op, wantHijacker bool, hr *handlerRun) http.Handler {
 		if _, ok := w.(http.Flusher); !ok {
 			hr.ifaceOK, hr.ifaceNo = false, "Flusher missing"
 		}
-		if _, ok := w.(io.ReaderFrom); !ok && hr.ifaceNo != "bare" {
+		if _, ok := w.(io.ReaderFrom); !ok && !hr.bare {
 			hr.ifaceOK, hr.ifaceNo = false, "ReaderFrom missing"
 		}
-		if _, ok := w.(http.Hijacker); ok != wantHijacker && hr.ifaceNo != "bare" {
+		if _, ok := w.(http.Hijacker); ok != wantHijacker && !hr.bare {
 			hr.ifaceOK, hr.ifaceNo = false, fmt.Sprintf("Hijacker presence %v, downstream %v", ok, wantHijacker)
 		}
 		if _, ok := w.(http.Pusher); ok {
@@ -513,8 +514,8 @@ type runOut struct {
 func exchange(c *Case, s *server, wrapped bool) (*runOut, error) {
 	tracked := trackedKeys(c)
 	hr := &handlerRun{}
-	if !wrapped {
-		hr.ifaceNo = "bare"
+	if !wrapped || c.Engine == "Off" {
+		hr.bare = true
 	}
 	inner := makeHandler(c.Ops, c.Hijacker && c.Mode == "server", hr)
 	var spy *spyWAF
@@ -558,7 +559,7 @@ func exchange(c *Case, s *server, wrapped bool) (*runOut, error) {
 		if err != nil {
 			// one retry on a fresh connection
 			s.cl.CloseIdleConnections()
-			hr2 := &handlerRun{ifaceNo: hr.ifaceNo}
+			hr2 := &handlerRun{bare: hr.bare}
 			*hr = *hr2
 			cr, err = s.do(c, outer)
 			if err != nil {
@@ -642,9 +643,14 @@ type printer struct {
 	seen map[string]string
 }
 
+// the shard prelude opens string_scope after N_scope: no %string / %N suffixes are needed
+func hxb(b []byte) string  { return `(hx "` + hex.EncodeToString(b) + `")` }
+func hxs(s string) string  { return hxb([]byte(s)) }
+func num(n int) string     { return fmt.Sprintf("%d", n) }
+
 func (p *printer) bs(b []byte) string {
-	if len(b) <= 160 {
-		return vh.Hx(b)
+	if len(b) <= 24 {
+		return hxb(b)
 	}
 	k := string(b)
 	if n, ok := p.seen[k]; ok {
@@ -652,7 +658,7 @@ func (p *printer) bs(b []byte) string {
 	}
 	n := fmt.Sprintf("big%d", len(p.seen))
 	p.seen[k] = n
-	p.lets = append(p.lets, fmt.Sprintf("let %s := %s in", n, vh.Hx(b)))
+	p.lets = append(p.lets, fmt.Sprintf("let %s := %s in", n, hxb(b)))
 	return n
 }
 
@@ -669,16 +675,16 @@ func iaction(a string) string {
 }
 
 func (p *printer) spec(s Spec) string {
-	a, st := iaction(s.Action), vh.N(int64(s.Status))
+	a, st := iaction(s.Action), num(s.Status)
 	switch s.Kind {
 	case "always":
 		return fmt.Sprintf("(RAlways %s %s)", a, st)
 	case "contains":
 		return fmt.Sprintf("(RContains %s %s %s)", p.hexs(s.Marker), a, st)
 	case "status":
-		return fmt.Sprintf("(RStatus %s %s %s)", vh.N(int64(s.Code)), a, st)
+		return fmt.Sprintf("(RStatus %s %s %s)", num(s.Code), a, st)
 	case "header":
-		return fmt.Sprintf("(RHeader %s %s %s %s)", vh.HxS(s.K), vh.HxS(s.V), a, st)
+		return fmt.Sprintf("(RHeader %s %s %s %s)", hxs(s.K), hxs(s.V), a, st)
 	}
 	return "RNone"
 }
@@ -688,9 +694,9 @@ func (p *printer) headers(h [][]string) string {
 	for i, kv := range h {
 		vals := make([]string, len(kv)-1)
 		for j, v := range kv[1:] {
-			vals[j] = vh.HxS(v)
+			vals[j] = hxs(v)
 		}
-		items[i] = fmt.Sprintf("(%s, %s)", vh.HxS(kv[0]), vh.List(vals))
+		items[i] = fmt.Sprintf("(%s, %s)", hxs(kv[0]), vh.List(vals))
 	}
 	return vh.List(items)
 }
@@ -698,13 +704,13 @@ func (p *printer) headers(h [][]string) string {
 func (p *printer) op(o Op) string {
 	switch o.Op {
 	case "wh":
-		return fmt.Sprintf("HWriteHeader %s", vh.N(int64(o.C)))
+		return fmt.Sprintf("HWriteHeader %s", num(o.C))
 	case "set":
-		return fmt.Sprintf("HSet %s %s", vh.HxS(o.K), vh.HxS(o.V))
+		return fmt.Sprintf("HSet %s %s", hxs(o.K), hxs(o.V))
 	case "add":
-		return fmt.Sprintf("HAdd %s %s", vh.HxS(o.K), vh.HxS(o.V))
+		return fmt.Sprintf("HAdd %s %s", hxs(o.K), hxs(o.V))
 	case "del":
-		return fmt.Sprintf("HDel %s", vh.HxS(o.K))
+		return fmt.Sprintf("HDel %s", hxs(o.K))
 	case "w":
 		return fmt.Sprintf("HWrite %s", p.hexs(o.Hex))
 	case "fl":
@@ -716,7 +722,7 @@ func (p *printer) op(o Op) string {
 		}
 		return fmt.Sprintf("HReadFrom %s", vh.List(cs))
 	case "rd":
-		return fmt.Sprintf("HRead %s", vh.N(int64(o.N)))
+		return fmt.Sprintf("HRead %s", num(o.N))
 	}
 	return "HReadAll"
 }
@@ -734,7 +740,7 @@ func term(c *Case, ops []Op) string {
 	eng := map[string]string{"On": "EOn", "DetectionOnly": "EDetect", "Off": "EOff"}[c.Engine]
 	mimes := make([]string, len(c.Mimes))
 	for i, m := range c.Mimes {
-		mimes[i] = vh.HxS(m)
+		mimes[i] = hxs(m)
 	}
 	var reqh [][]string
 	for _, kv := range c.ReqHeaders {
@@ -753,24 +759,15 @@ func term(c *Case, ops []Op) string {
 	for i, x := range ops {
 		opt[i] = p.op(x)
 	}
-	var tk []string
-	for k := range trackedKeys(c) {
-		tk = append(tk, k)
-	}
-	sort.Strings(tk)
-	tks := make([]string, len(tk))
-	for i, k := range tk {
-		tks[i] = vh.HxS(k)
-	}
 	intr := "None"
 	if o.Intr != nil {
-		intr = fmt.Sprintf("(Some (%s, %s))", iaction(o.Intr.Action), vh.N(int64(o.Intr.Status)))
+		intr = fmt.Sprintf("(Some (%s, %s))", iaction(o.Intr.Action), num(o.Intr.Status))
 	}
 	evs := make([]string, len(o.Trace))
 	for i, e := range o.Trace {
 		switch e.Ev {
 		case "h":
-			evs[i] = fmt.Sprintf("DHeader %s %s", vh.N(int64(e.Code)), p.headers(e.H))
+			evs[i] = fmt.Sprintf("DHeader %s %s", num(e.Code), p.headers(e.H))
 		case "b":
 			evs[i] = fmt.Sprintf("DBody %s", p.hexs(e.Hex))
 		default:
@@ -779,16 +776,16 @@ func term(c *Case, ops []Op) string {
 	}
 	infos := make([]string, len(o.Infos))
 	for i, x := range o.Infos {
-		infos[i] = vh.N(int64(x))
+		infos[i] = num(x)
 	}
-	body := fmt.Sprintf("Case %s %s %s %s %s %s %s %s %s %s %s %s %s %s %s %s %s %s %s %s %s %s %s %s %s",
+	body := fmt.Sprintf("Case %s %s %s %s %s %s %s %s %s %s %s %s %s %s %s %s %s %s %s %s %s %s %s %s",
 		vh.Bool(c.Mode == "server"), eng,
-		vh.Bool(c.ReqAccess), vh.N(int64(c.ReqLimit)), laction(c.ReqAction),
-		vh.Bool(c.RespAccess), vh.N(int64(c.RespLimit)), laction(c.RespAction), vh.List(mimes),
+		vh.Bool(c.ReqAccess), num(c.ReqLimit), laction(c.ReqAction),
+		vh.Bool(c.RespAccess), num(c.RespLimit), laction(c.RespAction), vh.List(mimes),
 		p.spec(c.Ph1), p.spec(c.Ph2), p.spec(c.Ph3), p.spec(c.Ph4),
-		p.headers(reqh), p.hexs(c.BodyHex), vh.List(opt), vh.List(tks),
+		p.headers(reqh), p.hexs(c.BodyHex), vh.List(opt),
 		vh.Bool(o.Invoked), p.hexs(o.ReadHex), intr, vh.List(evs),
-		vh.N(int64(o.Status)), p.headers(o.Headers), p.hexs(o.BodyHex), vh.List(infos))
+		num(o.Status), p.headers(o.Headers), p.hexs(o.BodyHex), vh.List(infos))
 	if len(p.lets) == 0 {
 		return body
 	}
@@ -884,7 +881,7 @@ func Run(cfg vh.Config) (*vh.Result, error) {
 				return nil, err
 			}
 		}
-		n := cfg.Pick(1400, 40000)
+		n := cfg.Pick(900, 40000)
 		for i := 0; i < n; i++ {
 			c := genCase(rng, cfg, i)
 			if err := runCase(c); err != nil {
@@ -901,7 +898,7 @@ func Run(cfg vh.Config) (*vh.Result, error) {
 	}
 	sort.Strings(res.Notes)
 
-	const per = 1000
+	per := cfg.Pick(300, 500)
 	for i, k := 0, 0; i < len(terms); i, k = i+per, k+1 {
 		j := i + per
 		if j > len(terms) {
@@ -910,6 +907,7 @@ func Run(cfg vh.Config) (*vh.Result, error) {
 		info, err := vh.WriteShard(cfg.OutDir, vh.Shard{
 			Name: fmt.Sprintf("C18_%d", k), Imports: "From Verif Require Import Base Http CorrC18.",
 			CaseType: "CorrC18.case", MismatchF: "CorrC18.mismatches", Terms: terms[i:j], Cases: cases[i:j],
+			Prelude: "Open Scope string_scope.",
 		})
 		if err != nil {
 			return nil, err
